@@ -345,6 +345,7 @@ func (a *analysis) checkFunction(fi *fnInfo, out *[]finding) (nSites int) {
 
 	a.pre1(fi, add)
 	a.pre3(fi, add)
+	a.tok3(fi, add)
 	a.cnt1(fi, add)
 	a.tok1(fi, add)
 	a.sticky(fi, sticky, add)
@@ -584,6 +585,188 @@ func (a *analysis) pre1(fi *fnInfo, add func(rule, construct string, pos token.P
 				facts[0], "back edge from block "+itoa(bc.latch.Index)+" near "+a.p.Pos(blockPos(bc.latch)))
 		default:
 			add("PRE-2", key, pos, ob.Holds, "", facts[0], "every counted iteration stores an element; states explored: "+itoa(len(e2.visited)))
+		}
+	}
+}
+
+// TOK-3 (beyond the design): in a counted line-record reader an array made with the declared count is
+// stored on every accepted line, or not at all. If the store sits on one side of a test of the line's token
+// count while the other side still lets the line be counted, the element of a short line keeps the zero
+// value (a placeholder, once any other line made the attribute appear). That is acceptable only when the
+// decision is the same for every line: the loop carries the token count of the first record in a variable
+// that starts negative and rejects (error) every later line whose count differs — see uniCheck.
+func (a *analysis) tok3(fi *fnInfo, add func(rule, construct string, pos token.Pos, v ob.Verdict, msg string, facts ...string)) {
+	if fi.errRes < 0 || len(fi.loops) == 0 {
+		return
+	}
+	// run-time sized makes, numbered as in CNT-1
+	num := map[*ssa.MakeSlice]int{}
+	n := 0
+	ssau.AllInstrs(fi.fn, func(in ssa.Instruction) {
+		if ms, ok := in.(*ssa.MakeSlice); ok {
+			if _, isConst := ms.Len.(*ssa.Const); !isConst {
+				n++
+				num[ms] = n
+			}
+		}
+	})
+	type uniKey struct {
+		l *ssau.Loop
+		t *ssa.Call
+	}
+	uniMemo := map[uniKey]*uniCheck{}
+	for _, l := range fi.loops {
+		// the scanner-line token lists split in this loop
+		var toks []*ssa.Call
+		for _, b := range fi.fn.Blocks {
+			if !l.Blocks[b] {
+				continue
+			}
+			for _, in := range b.Instrs {
+				if c, ok := in.(*ssa.Call); ok && isSplitter(c) && isTokenList(c.Type()) && a.fromScannerLine(c.Call.Args[0], 0, map[ssa.Value]bool{}) {
+					toks = append(toks, c)
+				}
+			}
+		}
+		if len(toks) == 0 {
+			continue
+		}
+		// pre-sized arrays stored by index in this loop
+		fillArr := map[ssa.Value]bool{}
+		stores := map[*ssa.MakeSlice][]*ssa.Store{}
+		var order []*ssa.MakeSlice
+		for ms := range num {
+			if l.Blocks[ms.Block()] {
+				continue
+			}
+			for _, r := range ssau.Refs(ms) {
+				ia, ok := r.(*ssa.IndexAddr)
+				if !ok || ia.X != ms {
+					continue
+				}
+				for _, rr := range ssau.Refs(ia) {
+					if st, ok := rr.(*ssa.Store); ok && st.Addr == ia && l.Blocks[st.Block()] {
+						if len(stores[ms]) == 0 {
+							order = append(order, ms)
+						}
+						stores[ms] = append(stores[ms], st)
+						fillArr[ms] = true
+					}
+				}
+			}
+		}
+		sort.Slice(order, func(i, j int) bool { return num[order[i]] < num[order[j]] })
+		for _, ms := range order {
+			key := fi.name + "→make#" + itoa(num[ms])
+			// is a store on one side of a token-count test whose other side still reaches the next line?
+			var cond *lenGuard
+			var condTok *ssa.Call
+			for _, st := range stores[ms] {
+				for _, t := range toks {
+					for _, g := range lenGuards(t) {
+						g := g
+						ib := g.ifi.Block()
+						if !l.Blocks[ib] {
+							continue
+						}
+						side := sideOf(g.ifi, st.Block())
+						if side < 0 {
+							continue
+						}
+						opp := ib.Succs[1-side]
+						if !l.Blocks[opp] {
+							continue
+						}
+						for _, latch := range l.Latch {
+							if opp == latch || ssau.Reaches(opp, latch) {
+								cond, condTok = &g, t
+							}
+						}
+					}
+				}
+			}
+			if cond == nil {
+				add("TOK-3", key, ms.Pos(), ob.Holds, "", "stored on every line that is counted: no test of the line's token count lets a line through without the store")
+				continue
+			}
+			uk := uniKey{l, condTok}
+			uc := uniMemo[uk]
+			if uc == nil {
+				uc = &uniCheck{lenVals: map[ssa.Value]bool{}, ok: map[*ssa.Phi]bool{}, why: map[*ssa.Phi]string{}}
+				for _, r := range ssau.Refs(condTok) {
+					if c, ok := r.(*ssa.Call); ok && ssau.Builtin(c) == "len" && len(c.Call.Args) == 1 && c.Call.Args[0] == ssa.Value(condTok) {
+						uc.lenVals[c] = true
+					}
+				}
+				for _, in := range l.Header.Instrs {
+					p, ok := in.(*ssa.Phi)
+					if !ok {
+						break
+					}
+					if !isIntType(p.Type()) {
+						continue
+					}
+					if c0, known := constStart(p, l); known && c0 < 0 {
+						uc.ok[p] = true
+					}
+				}
+				if len(uc.ok) > 0 {
+					e := a.newExplorer(fi, modePRE2)
+					e.uni = uc
+					e.fillArr = fillArr
+					e.loop = l
+					st := newState()
+					e.resetIteration(st)
+					st.uniEq, st.uniNeg, st.uniLen = map[*ssa.Phi]bool{}, map[*ssa.Phi]bool{}, map[ssa.Value]bool{}
+					for p := range uc.ok {
+						st.rel[p] = relv{base: p}
+					}
+					first := 0
+					for first < len(l.Header.Instrs) {
+						if _, ok := l.Header.Instrs[first].(*ssa.Phi); !ok {
+							break
+						}
+						first++
+					}
+					e.push(l.Header, first, nil, st)
+					e.run()
+					if e.overflow {
+						for p := range uc.ok {
+							uc.ok[p] = false
+							uc.why[p] = "exploration exceeded its budget"
+						}
+					}
+				}
+				uniMemo[uk] = uc
+			}
+			uniform := ""
+			var whys []string
+			for p, ok := range uc.ok {
+				if ok && uc.cycles > 0 {
+					uniform = nameOfPhi(p)
+				} else if uc.why[p] != "" {
+					whys = append(whys, uc.why[p])
+				}
+			}
+			sort.Strings(whys)
+			tp := cond.ifi.Cond.Pos()
+			if !tp.IsValid() {
+				tp = blockPos(cond.ifi.Block())
+			}
+			testPos := a.p.Pos(tp)
+			if uniform != "" {
+				add("TOK-3", key, ms.Pos(), ob.Holds, "", "the store depends on the token-count test at "+testPos,
+					"every accepted line has the token count latched in '"+uniform+"' at the first record (later lines with another count end in an error), so the decision is the same for all lines")
+				continue
+			}
+			why := "the loop carries no variable that starts negative, takes the token count of the first record and rejects every later line whose count differs"
+			if len(whys) > 0 {
+				why = whys[0]
+			}
+			add("TOK-3", key, ms.Pos(), ob.Violation,
+				"the array is made with the declared count but a line is counted without storing its element when the token-count test at "+testPos+
+					" fails, and nothing makes that test come out the same for every line ("+why+"): the last line of a file cut at a token boundary keeps the zero value as a placeholder while earlier lines make the attribute appear",
+				"store at "+a.p.Pos(ssau.PosOf(stores[ms][0])), "token-count test at "+testPos)
 		}
 	}
 }
